@@ -598,7 +598,7 @@ class FakeModule(object):
 
         self._timer.reset()
         with self._repeat_code_lock:
-            code = Universal.decode(rlc, frequency)
+            code = self.Universal.decode(rlc, frequency)
             if self._last_code is not None:
                 if self._last_code == code:
                     self._last_code.repeat_timer.start(self._timer)
